@@ -38,73 +38,92 @@ Proof.
     match goal with |- context [negb ?x] => destruct x end; cbn; [apply simr_refl | left; reflexivity | apply simr_refl | left; reflexivity | apply simr_refl | left; reflexivity].
 Qed.
 
-Definition Swf (p : pt) : Prop := forall e, simr (wf_of ideal p e) (wf_of lax p e).
-Definition Scp (p : pt) : Prop := forall e, simr (cp ideal p e) (cp lax p e).
+(* c1: `ideal` (all switches) or `only FDropped` (one switch) *)
+Definition okcfg (c1 : cfg) : Prop := c1 = ideal \/ c1 = only FDropped.
+Definition Swf (c1 : cfg) (p : pt) : Prop := forall e, simr (wf_of c1 p e) (wf_of lax p e).
+Definition Scp (c1 : cfg) (p : pt) : Prop := forall e, simr (cp c1 p e) (cp lax p e).
 
-Lemma Swf_all : forall p, Swf p.
+Ltac sw := cbn [s_dropped s_negdur s_negcount s_nearint s_parallel cv ideal only lax andb].
+Ltac ifs := repeat match goal with |- simr (if ?x then _ else _) _ => destruct x; sw end;
+            first [apply simr_refl | left; reflexivity | idtac].
+
+Lemma int_of_sim1 c1 v : okcfg c1 -> simr (int_of c1 v) (int_of lax v).
+Proof.
+  intros Hc1. destruct Hc1; subst c1; [apply int_of_sim|]. apply simr_refl.
+Qed.
+
+Lemma Swf_all c1 (Hc1 : okcfg c1) : forall p, Swf c1 p.
 Proof.
   induction p using pt_ind'; unfold Swf; intros e; cbn [wf_of]; try apply simr_refl.
   - (* atom *)
-    apply simr_bind; [apply simr_refl|]. intros v. cbn.
+    destruct Hc1; subst c1; sw; (destruct (is_nil (somes chs)); [left; reflexivity|]);
+      (destruct (_ && false)%bool; [apply simr_refl|]);
+      (apply simr_bind; [apply simr_refl|]); intros v; sw; [|apply simr_refl].
     destruct (Qltb (time_of v) 0); [left; reflexivity | apply simr_refl].
+  - (* table *)
+    destruct Hc1; subst c1; sw; (destruct (is_nil _); [left; reflexivity | apply simr_refl]).
   - (* map *) apply simr_bind; [apply simr_refl|]. intros e'. apply IHp.
   - (* multi *)
     apply simr_bind.
     + apply simr_rall. eapply Forall_impl; [|exact H]. intros c Hc. apply Hc.
-    + intros ws. apply simr_bind; [apply simr_refl|]. intros res0. cbn.
+    + intros ws. destruct Hc1; subst c1; (apply simr_bind; [apply simr_refl|]); intros res0; sw; [|apply simr_refl].
       match goal with |- context [negb ?x] => destruct x end; cbn; [apply simr_refl | left; reflexivity].
   - (* arith *)
     apply simr_bind; [apply IHp1|]. intros wl. apply simr_bind; [apply IHp2|]. intros wr.
     destruct wr as [cr|]; [|apply simr_refl]. destruct wl as [cl|]; [|apply simr_refl].
-    destruct (isclose (cdur cl) (cdur cr)); [|apply simr_refl]. cbn.
+    destruct (isclose (cdur cl) (cdur cr)); [|apply simr_refl].
+    destruct Hc1; subst c1; sw; [|apply simr_refl].
     destruct (Qeqb (cdur cl) (cdur cr)); cbn; [apply simr_refl | left; reflexivity].
   - (* wrap *) apply simr_bind; [apply IHp|]. intros; apply simr_refl.
-  - (* constr *) apply simr_bind; [apply simr_refl|]. intros _. apply IHp.
+  - (* constr *) destruct Hc1; subst c1; (apply simr_bind; [apply simr_refl|]); intros _; apply IHp.
   - (* single *) apply IHp.
 Qed.
 
-Lemma cp_atomic_sim p e :
-  simr (do w <- wf_of ideal p e; Ok (match w with Some x => [Leaf 1 (cdur x)] | None => [] end))
-       (do w <- wf_of lax p e; Ok (match w with Some x => [Leaf 1 (cdur x)] | None => [] end)).
-Proof. apply simr_bind; [apply Swf_all | intros; apply simr_refl]. Qed.
+Lemma cp_atomic_sim c1 (Hc1 : okcfg c1) p e :
+  simr (do w <- wf_of c1 p e; Ok (match w with Some x => [Leaf 1 (map fst x) (cdur x)] | None => [] end))
+       (do w <- wf_of lax p e; Ok (match w with Some x => [Leaf 1 (map fst x) (cdur x)] | None => [] end)).
+Proof. apply simr_bind; [apply Swf_all; exact Hc1 | intros; apply simr_refl]. Qed.
 
-Lemma Scp_all : forall p, Scp p.
+Lemma Scp_all c1 (Hc1 : okcfg c1) : forall p, Scp c1 p.
 Proof.
-  induction p using pt_ind'; unfold Scp; intros e; cbn [cp].
-  - apply cp_atomic_sim.
-  - apply cp_atomic_sim.
+  induction p using pt_ind'; unfold Scp; intros e; cbn [cp]; try (apply cp_atomic_sim; exact Hc1).
   - (* seq *)
     apply simr_bind; [|intros; apply simr_refl].
     apply simr_rall. eapply Forall_impl; [|exact H]. intros c Hc. apply Hc.
   - (* rep *)
-    apply simr_bind; [apply simr_refl|]. intros vc. apply simr_bind; [apply int_of_sim|]. intros n. cbn.
-    destruct (n <? 0)%Z; [left; reflexivity|]. destruct (n <=? 0)%Z; [apply simr_refl|].
-    apply simr_bind; [apply IHp | intros; apply simr_refl].
+    apply simr_bind; [apply simr_refl|]. intros vc. apply simr_bind; [apply int_of_sim1; exact Hc1|]. intros n.
+    destruct Hc1; subst c1; sw.
+    + destruct (n <? 0)%Z; [left; reflexivity|]. destruct (n <=? 0)%Z; [apply simr_refl|].
+      apply simr_bind; [apply IHp | intros; apply simr_refl].
+    + destruct (n <=? 0)%Z; [apply simr_refl|]. apply simr_bind; [apply IHp | intros; apply simr_refl].
   - (* for *)
-    apply simr_bind; [apply simr_refl|]. intros va. apply simr_bind; [apply int_of_sim|]. intros ia.
-    apply simr_bind; [apply simr_refl|]. intros vb. apply simr_bind; [apply int_of_sim|]. intros ib.
-    apply simr_bind; [apply simr_refl|]. intros vs. apply simr_bind; [apply int_of_sim|]. intros is.
+    apply simr_bind; [apply simr_refl|]. intros va. apply simr_bind; [apply int_of_sim1; exact Hc1|]. intros ia.
+    apply simr_bind; [apply simr_refl|]. intros vb. apply simr_bind; [apply int_of_sim1; exact Hc1|]. intros ib.
+    apply simr_bind; [apply simr_refl|]. intros vs. apply simr_bind; [apply int_of_sim1; exact Hc1|]. intros is.
     destruct (is =? 0)%Z; [apply simr_refl|].
     apply simr_bind; [|intros; apply simr_refl]. apply simr_rall. apply Forall_forall. intros z _. apply IHp.
   - (* map *) apply simr_bind; [apply simr_refl|]. intros e'. apply IHp.
-  - apply cp_atomic_sim.
-  - apply cp_atomic_sim.
   - (* wrap *) apply IHp.
   - (* rev *) apply simr_bind; [apply IHp | intros; apply simr_refl].
-  - (* constr *) apply simr_bind; [apply simr_refl|]. intros _. apply IHp.
+  - (* constr *) destruct Hc1; subst c1; (apply simr_bind; [apply simr_refl|]); intros _; apply IHp.
   - (* single *) apply simr_bind; [apply IHp | intros; apply simr_refl].
 Qed.
 
-(* what `ideal` accepts, the code (decimal reading) accepts with the same program *)
-Lemma ideal_refines p e kids : cp ideal p e = Ok kids -> cp lax p e = Ok kids.
-Proof. intros H. destruct (Scp_all p e) as [F|E]; [rewrite H in F; discriminate | rewrite <- E; exact H]. Qed.
+(* what c1 accepts, the code (decimal reading) accepts with the same program *)
+Lemma sw_refines c1 (Hc1 : okcfg c1) p e kids : cp c1 p e = Ok kids -> cp lax p e = Ok kids.
+Proof. intros H. destruct (Scp_all c1 Hc1 p e) as [F|E]; [rewrite H in F; discriminate | rewrite <- E; exact H]. Qed.
 
-(* whatever the code (decimal reading) accepts, `ideal` accepts with the same program or stops at a finding class *)
-Lemma ideal_exact p e kids : cp lax p e = Ok kids -> cp ideal p e = Ok kids \/ exists k, cp ideal p e = Err (EFinding k).
+(* whatever the code (decimal reading) accepts, c1 accepts with the same program or stops at a finding class *)
+Lemma sw_exact c1 (Hc1 : okcfg c1) p e kids : cp lax p e = Ok kids -> cp c1 p e = Ok kids \/ exists k, cp c1 p e = Err (EFinding k).
 Proof.
-  intros H. destruct (Scp_all p e) as [F|E]; [|left; rewrite E; exact H].
-  right. destruct (cp ideal p e) as [| |k]; try discriminate. destruct k; try discriminate. eexists; reflexivity.
+  intros H. destruct (Scp_all c1 Hc1 p e) as [F|E]; [|left; rewrite E; exact H].
+  right. destruct (cp c1 p e) as [| |k]; try discriminate. destruct k; try discriminate. eexists; reflexivity.
 Qed.
+
+Lemma ideal_refines p e kids : cp ideal p e = Ok kids -> cp lax p e = Ok kids.
+Proof. apply sw_refines. left; reflexivity. Qed.
+Lemma ideal_exact p e kids : cp lax p e = Ok kids -> cp ideal p e = Ok kids \/ exists k, cp ideal p e = Err (EFinding k).
+Proof. apply sw_exact. left; reflexivity. Qed.
 
 (* ------------------------------------------------------------------------------------------------------------ *)
 (* 2a. waveforms built by `ideal` have at least one component and no negative duration *)
@@ -121,28 +140,56 @@ Qed.
 Lemma last_map {A B} (f : A -> B) l d : last (map f l) (f d) = f (last l d).
 Proof. induction l as [|a t IH]; [reflexivity|]. destruct t; [reflexivity|]. exact IH. Qed.
 
-Lemma table_wf_nonneg r e chans c :
-  table_wf time_of r e chans = Ok (Some c) -> c <> [] /\ Forall (fun x => 0 <= snd x) c.
+Lemma pymax_ge_r f a b : (forall v, f v = time_of v) -> time_of b <= time_of (pymax f a b).
 Proof.
-  unfold table_wf. intros H. apply rbind_ok in H as (vals & _ & H).
+  intros Hf. unfold pymax. rewrite !Hf. destruct (Qltb _ _) eqn:E; [lra | apply Qltb_false in E; lra].
+Qed.
+Lemma pymax_list_ge_in f l : (forall v, f v = time_of v) -> forall a b, In b (a :: l) -> time_of b <= time_of (pymax_list f a l).
+Proof.
+  intros Hf. induction l as [|x t IH]; cbn [pymax_list]; intros a b Hb.
+  - destruct Hb as [->|[]]. lra.
+  - destruct Hb as [->|[->|Hb]].
+    + eapply Qle_trans; [apply (pymax_ge f b x Hf) | apply pymax_list_ge; exact Hf].
+    + eapply Qle_trans; [apply (pymax_ge_r f a b Hf) | apply pymax_list_ge; exact Hf].
+    + apply IH. right; exact Hb.
+Qed.
+
+Lemma in_kept {A} (cs : list (option Z)) (ps : list A) c p :
+  In (c, p) (somes (map (fun ct => match fst ct with Some c => Some (c, snd ct) | None => None end) (combine cs ps))) -> In p ps.
+Proof.
+  revert ps. induction cs as [|c0 t IH]; intros [|p0 ps]; cbn; try tauto.
+  destruct c0; cbn; intros H.
+  - destruct H as [H|H]; [inversion H; auto | right; eapply IH; exact H].
+  - right; eapply IH; exact H.
+Qed.
+
+Lemma table_wf_nonneg e chans c :
+  table_wf time_of e chans = Ok (Some c) -> c <> [] /\ Forall (fun x => 0 <= snd x) c.
+Proof.
+  unfold table_wf. intros H. apply rbind_ok in H as (vals & _ & H). cbv zeta in H.
   set (ins := map (fun ts => match ts with v :: _ => if Qltb 0 (time_of v) then VInt 0 :: ts else ts | [] => ts end) vals) in *.
-  clearbody ins. destruct ins as [|i0 irest]; [simpl in H; discriminate H|]. cbn [map] in H.
-  set (a := lastv i0) in *. set (dur := pymax_list time_of a (map lastv irest)) in *.
+  clearbody ins. destruct (map lastv ins) as [|a t] eqn:El; [discriminate|].
+  set (dur := pymax_list time_of a t) in *.
   destruct (Qeqb (time_of dur) 0); [discriminate|].
-  cbn [map forallb] in H.
-  match type of H with (if ?x && ?y then _ else _) = _ => destruct x eqn:Hv0; [|discriminate]; destruct y; [|discriminate] end.
-  inversion H; subst c; clear H. split; [discriminate|]. constructor; [|constructor]. cbn [snd].
-  assert (Ha : time_of a <= time_of dur) by (apply pymax_list_ge; reflexivity).
-  destruct (Qltb (time_of a) (time_of dur)) eqn:Hp.
-  - (* padded: 0 = first <= last = dur *)
-    destruct (i0 ++ [dur]) as [|v l] eqn:El; [simpl in Hv0; discriminate Hv0|]. apply andb_prop in Hv0 as [H0 Hs].
-    apply Qeqb_true in H0. cbn [map] in Hs. pose proof (sortedq_first_le_last _ _ (time_of (VInt 0)) Hs) as Hle.
-    change (time_of v :: map time_of l) with (map time_of (v :: l)) in Hle. rewrite <- El in Hle.
-    rewrite last_map, last_last in Hle. lra.
-  - destruct i0 as [|v l]; [simpl in Hv0; discriminate Hv0|]. apply andb_prop in Hv0 as [H0 Hs].
-    apply Qeqb_true in H0. cbn [map] in Hs. pose proof (sortedq_first_le_last _ _ (time_of (VInt 0)) Hs) as Hle.
-    change (time_of v :: map time_of l) with (map time_of (v :: l)) in Hle. rewrite last_map in Hle.
-    fold (lastv (v :: l)) in Hle. fold a in Hle. lra.
+  match type of H with match ?k with _ => _ end = _ => destruct k as [|[c0 ts0] kt] eqn:Ek end; [discriminate|].
+  destruct (forallb _ _) eqn:Hv; [|discriminate]. inversion H; subst c; clear H.
+  assert (Hin : In ts0 (map (fun ts => if Qltb (time_of (lastv ts)) (time_of dur) then ts ++ [dur] else ts) ins)).
+  { eapply in_kept. rewrite Ek. left; reflexivity. }
+  cbn [map forallb snd] in Hv. apply andb_prop in Hv as [Hv0 _].
+  assert (Hd : 0 <= time_of dur).
+  { apply in_map_iff in Hin as (i & Ei & Hi).
+    assert (Hle : time_of (lastv i) <= time_of dur).
+    { apply (pymax_list_ge_in time_of t (fun _ => eq_refl) a). rewrite <- El. apply in_map. exact Hi. }
+    destruct (Qltb (time_of (lastv i)) (time_of dur)) eqn:Hp; subst ts0.
+    - destruct (i ++ [dur]) as [|v l] eqn:E2; [discriminate|]. apply andb_prop in Hv0 as [H0 Hs].
+      apply Qeqb_true in H0. cbn [map] in Hs. pose proof (sortedq_first_le_last _ _ (time_of (VInt 0)) Hs) as Hle2.
+      change (time_of v :: map time_of l) with (map time_of (v :: l)) in Hle2. rewrite <- E2 in Hle2.
+      rewrite last_map, last_last in Hle2. lra.
+    - destruct i as [|v l]; [discriminate|]. apply andb_prop in Hv0 as [H0 Hs].
+      apply Qeqb_true in H0. cbn [map] in Hs. pose proof (sortedq_first_le_last _ _ (time_of (VInt 0)) Hs) as Hle2.
+      change (time_of v :: map time_of l) with (map time_of (v :: l)) in Hle2. rewrite last_map in Hle2.
+      fold (lastv (v :: l)) in Hle2. lra. }
+  split; [apply mk_comps_nonempty; discriminate|]. apply Forall_forall. intros x Hx. rewrite (In_mk_comps _ _ _ Hx). exact Hd.
 Qed.
 
 Definition okc (c : comps) : Prop := c <> [] /\ Forall (fun x => 0 <= snd x) c.
@@ -165,21 +212,32 @@ Proof.
   - rewrite IH. split; [auto | intros [H|H]; [discriminate | exact H]].
 Qed.
 
-Lemma sort_comps_nonempty l : l <> [] -> sort_comps l <> [].
+Lemma okc_mk kc q : kc <> [] -> 0 <= q -> okc (mk_comps kc q).
 Proof.
-  destruct l as [|x t]; [congruence|]. intros _. cbn [sort_comps fold_right].
-  destruct (fold_right insert_comp [] t) as [|y u]; cbn; [discriminate | destruct (_ <=? _)%Z; discriminate].
+  intros Hne Hq. split; [apply mk_comps_nonempty; exact Hne|]. apply Forall_forall. intros x Hx.
+  rewrite (In_mk_comps _ _ _ Hx). exact Hq.
 Qed.
+Lemma okc_recomp w q : w <> [] -> 0 <= q -> okc (recomp w q).
+Proof.
+  intros Hne Hq. split; [apply recomp_nonempty; exact Hne|]. apply Forall_forall. intros x Hx.
+  rewrite (In_recomp _ _ _ Hx). exact Hq.
+Qed.
+Lemma okc_wf_mk kc q c : wf_mk kc q = Some c -> 0 <= q -> okc c.
+Proof. destruct kc; [discriminate|]. intros H Hq. inversion H; subst. apply okc_mk; [discriminate | exact Hq]. Qed.
 
 Lemma Nw_all : forall p, Nw p.
 Proof.
   induction p using pt_ind'; unfold Nw; intros e c0 Hw; cbn [wf_of] in Hw; try discriminate.
   - (* atom *)
+    change (s_dropped ideal) with true in Hw. cbn [andb] in Hw. destruct (is_nil (somes chs)); [discriminate|].
+    rewrite andb_false_r in Hw.
     apply rbind_ok in Hw as (v & _ & Hw). cbn in Hw. destruct (Qltb (time_of v) 0) eqn:E; [discriminate|].
     apply Qltb_false in E.
-    destruct k; [destruct (Qltb 0 (time_of v)); [|discriminate]|]; inversion Hw; subst;
-      (split; [discriminate | repeat constructor; exact E]).
-  - (* table *) eapply table_wf_nonneg; exact Hw.
+    destruct k; [destruct (Qltb 0 (time_of v)); [|discriminate]|]; inversion Hw as [Hw'];
+      (eapply okc_wf_mk; [exact Hw' | exact E]).
+  - (* table *)
+    change (s_dropped ideal) with true in Hw. cbn [andb] in Hw. destruct (is_nil _); [discriminate|].
+    eapply table_wf_nonneg; exact Hw.
   - (* map *) apply rbind_ok in Hw as (e' & _ & Hw). eapply IHp; exact Hw.
   - (* multi *)
     apply rbind_ok in Hw as (ws & Hws & Hw). apply rbind_ok in Hw as (res0 & Hres & Hfin).
@@ -206,12 +264,13 @@ Proof.
     destruct wr as [cr|].
     + pose proof (okc_cdur _ (IHp2 _ _ Hwr)) as Hr. destruct wl as [cl|].
       * destruct (isclose _ _); [|discriminate]. destruct (_ && _)%bool; inversion Hw; subst.
-        split; [discriminate | repeat constructor]. cbn. exact (okc_cdur _ (IHp1 _ _ Hwl)).
-      * inversion Hw; subst. split; [discriminate | repeat constructor; exact Hr].
+        apply okc_mk; [|exact (okc_cdur _ (IHp1 _ _ Hwl))].
+        destruct (IHp1 _ _ Hwl) as [Hne _]. unfold union_z. destruct cl; [congruence | discriminate].
+      * inversion Hw; subst. apply okc_recomp; [destruct (IHp2 _ _ Hwr); assumption | exact Hr].
     + inversion Hw; subst. exact (IHp1 _ _ Hwl).
   - (* wrap *)
     apply rbind_ok in Hw as (w & Hw0 & Hw). destruct w as [x|]; inversion Hw; subst.
-    split; [discriminate | repeat constructor]. cbn. exact (okc_cdur _ (IHp _ _ Hw0)).
+    apply okc_recomp; [destruct (IHp _ _ Hw0); assumption | exact (okc_cdur _ (IHp _ _ Hw0))].
   - (* constr *) apply rbind_ok in Hw as (u & _ & Hw). exact (IHp _ _ Hw).
   - (* single *) exact (IHp _ _ Hw).
 Qed.
@@ -273,10 +332,10 @@ Proof.
   - eapply eval_rel; [exact R | | exact H1]. unfold last_expr, lastv. apply rall_last; [exact Hvs | discriminate].
 Qed.
 
-Lemma table_wf_sym r e e' chans w v : envR e e' ->
-  table_wf time_of r e chans = Ok w -> sym (PTable r chans) e' = Ok v -> wf_ok w (time_of v).
+Lemma table_wf_sym e e' chans w v : envR e e' -> somes (map fst chans) <> [] ->
+  table_wf time_of e chans = Ok w -> sym (PTable chans) e' = Ok v -> wf_ok w (time_of v).
 Proof.
-  intros R Hw Hv. unfold table_wf in Hw. cbn [sym] in Hv.
+  intros R Hkept Hw Hv. unfold table_wf in Hw. cbn [sym] in Hv.
   apply rbind_ok in Hw as (vals & Hvals & Hw). apply rbind_ok in Hv as (ls & Hls & Hv).
   pose proof (table_lasts_rel _ _ _ _ _ R Hvals Hls) as Hrel. fold ins_of in Hw.
   destruct (map lastv (map ins_of vals)) as [|a t]; [simpl in Hw; discriminate Hw|].
@@ -287,7 +346,11 @@ Proof.
     apply qmax_list_comp; [|exact Ha]. clear - Ht. induction Ht; cbn; constructor; assumption. }
   destruct (Qeqb (time_of dur) 0) eqn:Ez.
   - inversion Hw; subst. cbn. rewrite <- Hd. apply Qeqb_true; exact Ez.
-  - destruct (forallb _ _); inversion Hw; subst. split; [discriminate|]. constructor; [exact Hd | constructor].
+  - match type of Hw with match ?k with _ => _ end = _ => destruct k as [|k0 kt] eqn:Ek end.
+    + exfalso. revert Ek. apply kept_nonempty; [|exact Hkept].
+      rewrite !map_length. apply rall_map_inv in Hvals. apply Forall2_len in Hvals. rewrite !map_length in Hvals.
+      exact Hvals.
+    + destruct (forallb _ _); inversion Hw; subst. apply wf_ok_mk; [discriminate | exact Hd].
 Qed.
 
 (* ------------------------------------------------------------------------------------------------------------ *)
@@ -314,14 +377,18 @@ Lemma Ap_all : forall p, Ap p.
 Proof.
   induction p using pt_ind'; unfold Ap; intros e e' w0 v R Hw Hv; cbn [wf_of] in Hw; cbn [sym] in Hv; try discriminate.
   - (* atom *)
+    change (s_dropped ideal) with true in Hw. cbn [andb] in Hw. destruct (is_nil (somes chs)) eqn:Hk; [discriminate|].
+    apply is_nil_false in Hk. rewrite andb_false_r in Hw.
     apply rbind_ok in Hw as (v0 & Hv0 & Hw). pose proof (eval_rel _ _ _ _ _ R Hv0 Hv) as E. cbn in Hw.
     destruct (Qltb (time_of v0) 0) eqn:E0; [discriminate|]. apply Qltb_false in E0.
     destruct k.
     + destruct (Qltb 0 (time_of v0)) eqn:E1; inversion Hw; subst.
-      * split; [discriminate | repeat constructor; exact E].
+      * apply wf_ok_wf_mk; [exact Hk | exact E].
       * apply Qltb_false in E1. cbn. lra.
-    + inversion Hw; subst. split; [discriminate | repeat constructor; exact E].
-  - (* table *) eapply table_wf_sym; [exact R | exact Hw | exact Hv].
+    + inversion Hw; subst. apply wf_ok_wf_mk; [exact Hk | exact E].
+  - (* table *)
+    change (s_dropped ideal) with true in Hw. cbn [andb] in Hw. destruct (is_nil _) eqn:Hk; [discriminate|].
+    apply is_nil_false in Hk. eapply table_wf_sym; [exact R | exact Hk | exact Hw | exact Hv].
   - (* map *)
     apply rbind_ok in Hw as (e1 & He1 & Hw). apply rbind_ok in Hv as (e1' & He1' & Hv).
     eapply IHp; [eapply map_env_rel; eassumption | exact Hw | exact Hv].
@@ -376,9 +443,10 @@ Proof.
       destruct wl as [cl|].
       * pose proof (wf_ok_cdur _ _ Hl) as El.
         destruct (isclose _ _); [|discriminate]. cbn in Hw. destruct (Qeqb (cdur cl) (cdur cr)) eqn:Eq; [|discriminate].
-        apply Qeqb_true in Eq. inversion Hw; subst. split; [discriminate | repeat constructor]. cbn.
+        apply Qeqb_true in Eq. inversion Hw; subst.
+        apply wf_ok_mk; [destruct Hl as [Hne _]; unfold union_z; destruct cl; [congruence | discriminate]|].
         rewrite Em. destruct (Qleb _ _); [rewrite <- Er, <- Eq; reflexivity | exact El].
-      * inversion Hw; subst. cbn in Hl. split; [discriminate | repeat constructor]. cbn.
+      * inversion Hw; subst. cbn in Hl. apply wf_ok_recomp; [destruct Hr; assumption|].
         rewrite Em. destruct (Qleb (time_of u) (time_of w)) eqn:E1; [exact Er|]. apply Qleb_false in E1. lra.
     + inversion Hw; subst. cbn in Hr. destruct w0 as [cl|].
       * pose proof (wf_ok_cdur _ _ Hl) as El. pose proof (okc_cdur _ (Nw_all _ _ _ Hwl)) as Nl.
@@ -388,7 +456,7 @@ Proof.
   - (* wrap *)
     apply rbind_ok in Hw as (w & Hw1 & Hw). pose proof (IHp _ _ _ _ R Hw1 Hv) as H0.
     inversion Hw; subst. destruct w as [x|]; [|exact H0].
-    split; [discriminate | repeat constructor]. cbn. apply wf_ok_cdur; exact H0.
+    apply wf_ok_recomp; [destruct H0; assumption | apply wf_ok_cdur; exact H0].
   - (* constr *) apply rbind_ok in Hw as (u & _ & Hw). eapply IHp; eassumption.
   - (* single *) eapply IHp; eassumption.
 Qed.
@@ -399,7 +467,7 @@ Definition Bp (p : pt) : Prop :=
   forall e e' kids v, envR e e' -> cp ideal p e = Ok kids -> sym p e' = Ok v -> total kids == time_of v.
 
 Lemma bp_atomic p e e' kids v : envR e e' ->
-  (do w <- wf_of ideal p e; Ok (match w with Some x => [Leaf 1 (cdur x)] | None => [] end)) = Ok kids ->
+  (do w <- wf_of ideal p e; Ok (match w with Some x => [Leaf 1 (map fst x) (cdur x)] | None => [] end)) = Ok kids ->
   sym p e' = Ok v -> total kids == time_of v.
 Proof.
   intros R H Hv. apply rbind_ok in H as (w & Hw & H). inversion H; subst; clear H.
@@ -497,51 +565,74 @@ Proof.
     pose proof (IHp _ _ _ _ R Hk Hv) as Ht. pose proof (Lp_all ideal p e kids' Hk) as Hl.
     destruct kids' as [|k t]; [inversion Hc; subst; exact Ht|].
     assert (Hw : wfl (Node 1 (k :: t))) by (apply wfl_node; repeat split; [lia | discriminate | exact Hl]).
-    destruct (wf_duration_is_loop_duration _ Hw) as (q & Hq & E). rewrite Hq in Hc. inversion Hc; subst; clear Hc.
+    destruct (wf_duration_is_loop_duration _ Hw) as (q & Hq & E).
+    destruct (to_wf (Node 1 (k :: t))) as [q'|] eqn:Hq'; [|discriminate]. apply to_wf_some in Hq'. rewrite Hq in Hq'.
+    inversion Hq'; subst q'. inversion Hc; subst; clear Hc.
     unfold total at 1. cbn [map qsum loop_duration]. rewrite E. cbn [loop_duration].
     change (qsum (map loop_duration (k :: t))) with (total (k :: t)). rewrite Ht. ring.
 Qed.
 
 (* ------------------------------------------------------------------------------------------------------------ *)
-(* 3. the guard and the theorem about the code *)
+(* 3. the guards and the theorems about the code.  All of them speak about `create_program`, i.e. about the template
+   with its channel mappings threaded to the atoms (`resolve idf`). *)
 Definition is_ok {A} (r : res A) : bool := match r with Ok _ => true | _ => false end.
+Definition rs : pt -> pt := resolve idf.
 
 (* one executable guard per finding class: the code with only that class made explicit does not stop there *)
 Definition guard_finding (k : finding) (p : pt) (e : env) : bool :=
-  match cp (only k) p e with Err (EFinding _) => false | _ => true end.
+  match cp (only k) (rs p) e with Err (EFinding _) => false | _ => true end.
 
-(* the guard of the positive theorem: binary and decimal reading agree (the quantifier "ints or short decimals") and
-   no finding class is met on the way *)
-Definition guard_C04 (p : pt) (e : env) : bool := g_view p e && is_ok (cp ideal p e).
+(* to_waveform does not raise: all leaves of the program define the same channels *)
+Definition g_uniform (p : pt) (e : env) : bool :=
+  match cp real (rs p) e with Ok [] => true | Ok kids => uniform (Node 1 kids) | _ => true end.
 
+(* the guard of the positive theorem: binary and decimal reading agree (the quantifier "ints or short decimals"), no
+   finding class is met on the way, and the program can be rendered as one waveform *)
+Definition guard_C04 (p : pt) (e : env) : bool := g_view p e && is_ok (cp ideal (rs p) e) && g_uniform p e.
+
+Lemma views_of_total kids d : Forall wfl kids -> total kids == d ->
+  match (match kids with [] => None | _ => Some (Node 1 kids) end) with
+  | None => d == 0
+  | Some prog => loop_duration prog == d /\ (exists q, wf_duration prog = Some q /\ q == d) /\ sum_pieces 1 prog == d
+  end.
+Proof.
+  intros Hl Ht. destruct kids as [|k t].
+  - cbn in Ht. symmetry. exact Ht.
+  - assert (Hw : wfl (Node 1 (k :: t))) by (apply wfl_node; repeat split; [lia | discriminate | exact Hl]).
+    assert (Hld : loop_duration (Node 1 (k :: t)) == d).
+    { cbn [loop_duration]. change (qsum (map loop_duration (k :: t))) with (total (k :: t)). rewrite Ht. ring. }
+    split; [exact Hld|]. split.
+    + destruct (wf_duration_is_loop_duration _ Hw) as (q & Hq & E). exists q. split; [exact Hq | rewrite E; exact Hld].
+    + rewrite sum_pieces_is_duration. exact Hld.
+Qed.
+
+(* THE property under the tight guard; the waveform view is to_wf: to_waveform does not raise and lasts as long *)
 Theorem agree_tight p e v :
   guard_C04 p e = true -> sym p (decimalize e) = Ok v ->
   exists o, create_program real p e = Ok o /\
   match o with
   | None => time_of v == 0
   | Some prog => loop_duration prog == time_of v
-                 /\ (exists q, wf_duration prog = Some q /\ q == time_of v)
+                 /\ (exists q, to_wf prog = Some q /\ q == time_of v)
                  /\ sum_pieces 1 prog == time_of v
   end.
 Proof.
-  unfold guard_C04. intros Hg Hv. apply andb_prop in Hg as [Hview Hid].
-  destruct (cp ideal p e) as [kids| |] eqn:Hi; try discriminate. clear Hid.
+  unfold guard_C04. intros Hg Hv. apply andb_prop in Hg as [Hg Huni]. apply andb_prop in Hg as [Hview Hid].
+  destruct (cp ideal (rs p) e) as [kids| |] eqn:Hi; try discriminate. clear Hid.
   pose proof (ideal_refines _ _ _ Hi) as Hlax.
-  assert (Hreal : cp real p e = Ok kids).
-  { unfold g_view in Hview. destruct (cp real p e) as [k2| |] eqn:Hr; try discriminate.
+  assert (Hreal : cp real (rs p) e = Ok kids).
+  { unfold g_view in Hview. fold rs in Hview. destruct (cp real (rs p) e) as [k2| |] eqn:Hr; try discriminate.
     rewrite Hlax in Hview. apply loops_same_eq in Hview. subst. reflexivity. }
   assert (Ht : total kids == time_of v).
-  { apply (Bp_all p e (decimalize e) kids v); [unfold envR; symmetry; apply qenv_decimalize | exact Hi | exact Hv]. }
-  pose proof (Lp_all real p e kids Hreal) as Hl.
-  unfold create_program. rewrite Hreal. cbn [rbind]. eexists; split; [reflexivity|].
-  destruct kids as [|k t].
-  - cbn in Ht. symmetry. exact Ht.
-  - assert (Hw : wfl (Node 1 (k :: t))) by (apply wfl_node; repeat split; [lia | discriminate | exact Hl]).
-    assert (Hld : loop_duration (Node 1 (k :: t)) == time_of v).
-    { cbn [loop_duration]. change (qsum (map loop_duration (k :: t))) with (total (k :: t)). rewrite Ht. ring. }
-    split; [exact Hld|]. split.
-    + destruct (wf_duration_is_loop_duration _ Hw) as (q & Hq & E). exists q. split; [exact Hq | rewrite E; exact Hld].
-    + rewrite sum_pieces_is_duration. exact Hld.
+  { apply (Bp_all (rs p) e (decimalize e) kids v); [unfold envR; symmetry; apply qenv_decimalize | exact Hi |].
+    unfold rs. rewrite sym_resolve. exact Hv. }
+  pose proof (Lp_all real (rs p) e kids Hreal) as Hl.
+  unfold create_program. fold rs. rewrite Hreal. cbn [rbind]. eexists; split; [reflexivity|].
+  pose proof (views_of_total kids (time_of v) Hl Ht) as Hviews.
+  unfold g_uniform in Huni. rewrite Hreal in Huni.
+  destruct kids as [|k t]; [exact Hviews|].
+  destruct Hviews as (H1 & (q & Hq & Eq) & H3). split; [exact H1|]. split; [|exact H3].
+  exists q. split; [|exact Eq]. unfold to_wf. rewrite Huni. exact Hq.
 Qed.
 
 (* the guard excludes nothing but the finding classes: whatever the code (decimal reading) accepts, `ideal` accepts
@@ -550,4 +641,62 @@ Theorem guard_exact p e kids :
   cp lax p e = Ok kids -> is_ok (cp ideal p e) = true \/ exists k, cp ideal p e = Err (EFinding k).
 Proof.
   intros H. destruct (ideal_exact _ _ _ H) as [E|E]; [left; rewrite E; reflexivity | right; exact E].
+Qed.
+
+(* ------------------------------------------------------------------------------------------------------------ *)
+(* 4. the program side against the specification `den`, for the code itself (binary comparisons), under the reading
+   guard and provided no atom loses all of its channels *)
+Lemma only_dropped_cv : forall v, cv (only FDropped) v = time_of v.
+Proof. reflexivity. Qed.
+
+Lemma program_views_agree0 p e d :
+  g_view p e = true -> guard_finding FDropped p e = true -> den p (qenv_of e) = Some d ->
+  forall o, create_program real p e = Ok o ->
+  match o with
+  | None => d == 0
+  | Some prog => loop_duration prog == d
+                 /\ (exists q, wf_duration prog = Some q /\ q == d)
+                 /\ sum_pieces 1 prog == d
+  end.
+Proof.
+  intros Hg Hk Hd o Hc.
+  apply (program_views_agree_cfg (only FDropped) only_dropped_cv eq_refl p e d Hd).
+  unfold create_program in *. fold rs in *. apply rbind_ok in Hc as (kids & Hreal & Hc).
+  pose proof (g_view_eq _ _ _ Hg Hreal) as Hlax. fold rs in Hlax.
+  destruct (sw_exact (only FDropped) (or_intror eq_refl) _ _ _ Hlax) as [E|[k E]].
+  - rewrite E. exact Hc.
+  - unfold guard_finding in Hk. rewrite E in Hk. discriminate.
+Qed.
+
+(* ... and to_waveform does not raise where all leaves define the same channels *)
+Theorem program_views_agree p e d :
+  g_view p e = true -> guard_finding FDropped p e = true -> g_uniform p e = true -> den p (qenv_of e) = Some d ->
+  forall o, create_program real p e = Ok o ->
+  match o with
+  | None => d == 0
+  | Some prog => loop_duration prog == d
+                 /\ (exists q, to_wf prog = Some q /\ q == d)
+                 /\ sum_pieces 1 prog == d
+  end.
+Proof.
+  intros Hg Hk Hu Hd o Hc. pose proof (program_views_agree0 p e d Hg Hk Hd o Hc) as H.
+  unfold create_program in Hc. fold rs in Hc. apply rbind_ok in Hc as (kids & Hreal & Hc).
+  unfold g_uniform in Hu. rewrite Hreal in Hu. destruct kids as [|k t]; inversion Hc; subst o; [exact H|].
+  destruct H as (H1 & (q & Hq & Eq) & H3). split; [exact H1|]. split; [|exact H3].
+  exists q. split; [|exact Eq]. unfold to_wf. rewrite Hu. exact Hq.
+Qed.
+
+(* all four views against `den`, floats read as their shortest decimal *)
+Theorem agree_den p e d v o :
+  g_view p e = true -> guard_finding FDropped p e = true -> g_uniform p e = true -> den p (qenv_of e) = Some d ->
+  create_program real p e = Ok o -> sym p (decimalize e) = Ok v ->
+  time_of v == d /\
+  match o with
+  | None => d == 0
+  | Some prog => loop_duration prog == d /\ (exists q, to_wf prog = Some q /\ q == d) /\ sum_pieces 1 prog == d
+  end.
+Proof.
+  intros Hg Hk Hu Hd Hc Hv. split.
+  - eapply Sp_all; [exact Hv | rewrite qenv_decimalize; exact Hd].
+  - eapply program_views_agree; eassumption.
 Qed.
